@@ -381,3 +381,63 @@ def replay_one(sc, prop=None):
         mon = "TraceSessionLate" if prop == "C02" else "TraceSession"
     rej, _, _ = vlib.validate(SPEC, mon, tp, set(vlib.known_devs(prop)) if prop else set())
     return rej
+
+
+def proc_sliding_stage(res, rng, vh, scen, quick=True):
+    """Processing-time SLIDING window (the default time characteristic; outside the letter of C08, same contract with arrival
+    times): model check ProcSliding (the repaired Trigger: the cursor advances on every tick; the variant before the repair violates
+    Timely and is reported as a note), then free-running real-time inputs - seeded bursts and pauses, plus inputs with an idle
+    period of 1.5 s - validated by TraceProcSliding: a row is in every interval that certainly contains its arrival bracket and in no
+    interval that cannot contain it, intervals in order and once, and (idle scenarios) a result follows its interval's end closely."""
+    for adv in ("TRUE", "FALSE"):
+        cfg = ("SPECIFICATION Spec\nCONSTANTS Size = 2 Slide = 1 MaxNow = %d MaxEv = %d Emit = FALSE AdvanceWhenEmpty = %s\n"
+               "INVARIANTS Placed NoRepeat NoLoss Timely\nVIEW View\nCHECK_DEADLOCK FALSE\n" % (7 if quick else 9, 3 if quick else 4, adv))
+        r = vlib.tlc(SPEC, "ProcSliding", cfg, workers=8, timeout=900)
+        if adv == "TRUE":
+            res.add_model("ProcSliding", r, dict(size=2, slide=1, kind="procsliding"))
+            if not r["ok"]:
+                if r["violated"]:
+                    res.notes.append("MODEL-COUNTEREXAMPLE procsliding: invariant %s fails in the model; decided by the replay" % r["violated"])
+                else:
+                    raise vlib.Inconclusive("TLC failed on ProcSliding:\n" + r.get("error", r["out"][-2000:]))
+        else:
+            res.notes.append("ProcSliding with AdvanceWhenEmpty = FALSE (Trigger before repair 038656f): TLC reports %s" % (r["violated"] or "no violation"))
+    sc_path = os.path.join(vlib.scratch(), "psl_scen.ndjson")
+    tr_path = os.path.join(vlib.scratch(), "psl_trace.ndjson")
+    base = max(scen) if scen else 0
+    mine = {}
+    with open(sc_path, "w") as f:
+        for k in range(16 if quick else 120):
+            base += 1
+            slide = rng.choice([50, 80, 100])
+            n = rng.choice([2, 2, 3])
+            steps, i = [], 0
+            for _ in range(rng.choice([6, 10, 16])):
+                i += 1
+                steps.append({"a": "add", "id": i})
+                g = rng.choice([0, 2000, 20000, 60000, 120000, 250000])
+                if g:
+                    steps.append({"a": "sleep", "gap": g})
+            timing = k % 4 == 0
+            if timing:      # an idle period in the middle: the rows after it are still reported promptly
+                steps.insert(len(steps) // 2, {"a": "sleep", "gap": 1500000})
+            sc = {"tr": base, "kind": "sliding", "size_ms": slide * n, "slide_ms": slide, "groups": rng.choice([1, 2, 3]), "free": True, "timing": timing, "steps": steps}
+            mine[base] = sc
+            f.write(json.dumps(sc) + "\n")
+    rc, out = vlib.sh([vh, "proc", "-scen", sc_path, "-out", tr_path, "-par", "8"], 1500)
+    if rc != 0:
+        raise vlib.Inconclusive("proc driver failed (sliding):\n" + out[-3000:])
+    inc = [l for l in out.splitlines() if l.startswith("INCONCLUSIVE")]
+    if len(inc) > max(2, len(mine) // 10):
+        raise vlib.Inconclusive("%d of %d processing-time sliding scenarios inconclusive, e.g. %s" % (len(inc), len(mine), inc[0]))
+    rej, _, nlines = vlib.validate(SPEC, "TraceProcSliding", tr_path, set())
+    seen = set()
+    for tr, line, code in rej:
+        if tr in seen:
+            continue
+        seen.add(tr)
+        res.violation("processing-time sliding: %s at trace line %d of scenario %d" % (code, line, tr), mine.get(tr))
+    res.cov["traces_validated_against_impl"] += len(mine) - len(inc)
+    res.cov["evaluations"] += len(mine)
+    res.cov["trace_events"] += nlines
+    res.notes.append("processing-time sliding: %d free-running real-time scenarios (%d with an idle period), monitor TraceProcSliding" % (len(mine), sum(1 for m in mine.values() if m["timing"])))
